@@ -135,11 +135,12 @@ type egKey[E elgamal.FiniteCyclicGroupElement[E, S], S algebra.PrimeFieldElement
 }
 
 type egState[E elgamal.FiniteCyclicGroupElement[E, S], S algebra.PrimeFieldElement[S]] struct {
-	ct      *elgamal.Ciphertext[E, S]
-	mu, rho *big.Int
-	root    bool
-	dead    bool
-	fails   []fail
+	preferSK bool
+	ct       *elgamal.Ciphertext[E, S]
+	mu, rho  *big.Int
+	root     bool
+	dead     bool
+	fails    []fail
 }
 
 func (s *egState[E, S]) failf(key, format string, a ...any) {
@@ -259,10 +260,12 @@ func (k *egKey[E, S]) agree(ns *egState[E, S], op string, a *elgamal.Ciphertext[
 	if a != nil && b != nil && !bytes.Equal(k.ctBytes(a), k.ctBytes(b)) {
 		ns.failf("elgamal/sk-vs-pk/"+op, "SecretKey %s gives %x, PublicKey %s gives %x", op, k.ctBytes(b), op, k.ctBytes(a))
 	}
-	if a != nil {
-		return a
+	// both results are byte-equal (or a failure was recorded); alternate which object the history continues with, so
+	// that ciphertext objects produced by one path are consumed by the other path as well
+	if a == nil || (ns.preferSK && b != nil) {
+		return b
 	}
-	return b
+	return a
 }
 
 func (k *egKey[E, S]) wantPlain(ns *egState[E, S], tag string, got *elgamal.Plaintext[E, S], err error, mu *big.Int) {
@@ -287,11 +290,11 @@ func (k *egKey[E, S]) wantNonce(ns *egState[E, S], tag string, got *elgamal.Nonc
 
 func (k *egKey[E, S]) mod(v *big.Int) *big.Int { return v.Mod(v, k.ctx.q) }
 
-func (k *egKey[E, S]) step(par *egState[E, S], op int) (ns *egState[E, S], ok bool) {
+func (k *egKey[E, S]) step(par *egState[E, S], op int, lvl int) (ns *egState[E, S], ok bool) {
 	if par.dead || (par.root && op >= k.oSelf) {
 		return nil, false
 	}
-	ns = &egState[E, S]{}
+	ns = &egState[E, S]{preferSK: lvl%2 == 0} // even levels continue with the SecretKey result, odd ones with the PublicKey result
 	defer func() {
 		if r := recover(); r != nil {
 			if he, isH := r.(engine.HarnessError); isH {
@@ -409,7 +412,7 @@ func (k *egKey[E, S]) build(hist []int) (*egState[E, S], bool) {
 			return nil, false
 		}
 	}
-	ns, ok := k.step(par, hist[len(hist)-1])
+	ns, ok := k.step(par, hist[len(hist)-1], len(hist))
 	if ok && len(hist) < k.depth {
 		// only the first history that reaches a state is ever extended by the search (same key as Canon)
 		if c := k.canon(ns, hist); c == "" || !k.cached[c] {
